@@ -46,7 +46,8 @@ class C09(Check):
         'are not written at all) and keeps comments; defaults are restored afterwards',
     )
     rule = ('histories: ALL sequences of length <= 2 (quick) / <= 3 (thorough) over {add, insertRule at every index, '
-            'deleteRule at every index} x 10 rule kinds from the empty sheet, + boundary indexes, + random walks (length '
+            'deleteRule at every index} x 10 rule kinds from the empty sheet, + every ordered sheet x ordered add, + '
+            'CSSRuleList arguments (allowed and forbidden kinds, sheet / @media / @page), + boundary indexes, + random walks (length '
             '60) over all operations incl. text replace, encoding, namespaces[p]=u / del, string and object arguments, '
             'nested @media/@page lists to depth 3, raise and log-only mode. non-trivial = distinct (history prefix, '
             'operation) whose operation is not an append to an empty sheet')
@@ -59,12 +60,9 @@ class C09(Check):
     def run(self, ctx):
         env = ops_mod.Env(ctx)
         try:
-            self.corpus(ctx, env)
-            self.exhaustive(ctx, env)
-            self.on_valid_sheets(ctx, env)
-            self.boundary(ctx, env)
-            self.random_walks(ctx, env)
-            env.flush()
+            for phase in (self.corpus, self.exhaustive, self.on_valid_sheets, self.boundary, self.random_walks):
+                ctx.phase(phase, ctx, env)
+            ctx.phase(env.flush)
         finally:
             env.restore()
         ctx.notes['known_region_hits'] = dict(ctx.known_hits)
